@@ -214,6 +214,10 @@ def streams(ctx):
          ("empty-quoted-value", "pnpm", "catalog:\n  empty: \"\"\n  one: '1'\n  q: ''\n  react: ^18.0.0\n", [("one", "1", None), ("react", "^18.0.0", None)]),
          ("short-sha-ref", "gha", "jobs:\n  b:\n    steps:\n      - uses: a/b@1a2b3c4\n      - uses: c/d@" + "g" * 40 + "\n      - uses: e/f@" + "0123456789abcdef" * 2 + "01234567 # v1.2.3\n",
           [("a/b", "1a2b3c4", None), ("c/d", "g" * 40, None), ("e/f", "v1.2.3", "0123456789abcdef" * 2 + "01234567")]),
+         ("F-C04-15", "npm", '{"optionalDependencies":{"fsevents":"^2.3.0"},"dependencies":{"a":"1.0.0"}}', [("fsevents", "^2.3.0", None), ("a", "1.0.0", None)]),
+         ("F-C04-16", "npm", '{"dependencies":{"a":"user/repo","b":"./local.tgz","c":"../dir","d":"~/dir","e":"/abs/dir","f":"gitlab:u/r","g":"bitbucket:u/r","h":"gist:0123abcd",'
+                             '"i":"user/repo#semver:^1.0.0","j":"npm:@scope/real@1.2.3","k":"npm:real@2.0.0","l":"1.0.0"}}',
+          [("@scope/real", "1.2.3", None), ("real", "2.0.0", None), ("l", "1.0.0", None)]),
          ("F-C04-14", "crates", "[dependencies]\n\"serde\" = \"1.0.0\"\n", [("serde", "1.0.0", None)]),
          ("F-C04-14", "pypi", "[project]\n\"dependencies\" = [\"requests>=2.0\"]\n", [("requests", ">=2.0", None)])]
     cw = [{"req": vlib.line("l.parse", eco, text), "eco": eco, "tag": ("witness", kid)} for kid, eco, text, _ in W]
